@@ -1,7 +1,8 @@
 from checks import pipeseq as ps
+from checks import C06
 
 CLAIM = {
-    "text": "Bounded model checking of real pipes (idem, skip, setflowdef, probe_uref, null; upipe_helper_urefcount / helper_output / "
+    "text": "Bounded model checking of real pipes (idem, skip, setflowdef, probe_uref, null, queue sink + queue source; upipe_helper_urefcount / helper_output / "
             "helper_void as expanded in each) over the real uref_std, udict_inline, ubuf_block_mem and umem_alloc managers with their "
             "reference counting ENABLED (pool depth 0: every free is a real free, so CBMC's memory model is an exact oracle): for every "
             "sequence of up to 3 API calls (set_flow_def x3 kinds, set_output S0/S1/NULL, input, flush, sink refusing/accepting) followed "
@@ -10,8 +11,9 @@ CLAIM = {
             "reference it took on its outputs (their counts are back to the harness's single reference and no output died early), and "
             "every manager is back to its creator's reference(s) before the creator releases it.",
     "note": "Trusted: as C04 (without VERIF_POOL_NO_MGR_REF and without static managers: ENV_COUNT_MGRS). Bounds: histories of <= 3 calls "
-            "(quick) / 4 (thorough) + release; pool depth 0 only. Not covered: pool depth > 0 (recycling), queue sink (known suspicious "
-            "set_output(NULL) path, see DESIGN), pipes outside the list, concurrent release (C09).",
+            "(quick) / 4 (thorough) + release; pool depth 0 only. The queue sink + queue source pair runs in harness/C06_queue.c (mock event loop, eventfd "
+            "model, static managers, leak check): pseudo-output set / replaced / removed while buffers flow. Not covered: pool depth > 0 "
+            "(recycling), pipes outside the list, concurrent release (C09).",
     "technique": "CBMC bounded model checking of real C pipes and managers with refcounting enabled; CBMC memory model "
                  "(use-after-free, double free, leak) as oracle + refcount assertions; complete enumeration of call sequences",
 }
@@ -36,13 +38,20 @@ def build(tier):
     for pipe, sq in plan:
         for i, ops in enumerate(sq):
             qs.append(ps.query("C01", pipe, ops, timeout=280 if quick else 900, sample=(i % 40 == 3), replay=(i % 50 == 3), count_mgrs=True))
+    # queue sink + queue source (harness/C06_queue.c: both pipes, mock event loop, eventfd model; static managers): the
+    # pseudo-output of the sink is set / replaced / removed, buffers flow, everything is released, the loops run dry
+    qsched = C06.schedules(C06.SCRIPTS["pseudo"], C06.BURSTS[:3], 1)[::2 if quick else 1] + [[10, 11, 10, 0, 2, 4], [10, 10, 0, 2, 7, 11, 4], [0, 2, 2, 10, 9, 11, 4]]
+    if not quick:
+        qsched += C06.schedules([10, 0, 2, 2, 11, 10, 4], C06.BURSTS[:3], 1) + C06.schedules(C06.SCRIPTS["stream"], C06.BURSTS[:3], 1)
+    for i, ops in enumerate(qsched):
+        qs.append(C06.q("queue_%s" % "-".join(map(str, ops)), ops, 1, timeout=280 if quick else 900, replay=(i % 10 == 1)))
     seen = set()
     qs = [q for q in qs if not (q.name in seen or seen.add(q.name))]
-    meta = {"bounds": {"pipes": sorted({ps.PIPES[p] for p, _ in plan}), "sequence_length": 3 if quick else 4, "sequences": len(qs),
+    meta = {"bounds": {"pipes": sorted({ps.PIPES[p] for p, _ in plan} | {"queue sink + queue source"}), "sequence_length": 3 if quick else 4, "sequences": len(qs),
                        "pool_depth": 0},
             "exhaustive": True,
             "rule": "every call sequence of the stated length over the stated alphabet is one query, always followed by release of everything",
             "assumptions": [a for a in ps.COMMON_ASSUME if "VERIF_POOL_NO_MGR_REF" not in a] +
                            ["manager reference counting enabled (ENV_COUNT_MGRS), pool shim upool_depth0.h WITH manager references"],
-            "outside": ["upipe_htons with counted managers (its copy path on unaligned buffers gave no verdict in 280 s; it is covered with static managers by C05)", "pool depth > 0 (structures recycled instead of freed)", "queue sink / worker pipes", "allocation failure", "concurrent release (C09)"]}
+            "outside": ["upipe_htons with counted managers (its copy path on unaligned buffers gave no verdict in 280 s; it is covered with static managers by C05)", "pool depth > 0 (structures recycled instead of freed)", "worker / transfer pipes", "allocation failure", "concurrent release (C09)"]}
     return qs, meta
